@@ -135,8 +135,11 @@ def energy_from_tof(*, tof: Variable, Ltotal: Variable) -> Variable:
     c = _energy_constant(sc.units.meV, tof, Ltotal)
     # Square the flight path in double precision (like c): a single-precision
     # Ltotal must not limit the accuracy of a double-precision result.
-    return as_float_type(c * as_float_type(Ltotal, c) ** 2, tof) / tof ** sc.scalar(
-        2, dtype=elem_dtype(tof)
+    # Square the time in floating point: an integer tof (raw event_time_offset in
+    # ns or ps) overflows int64 when squared, and int32 has no integer power.
+    t = as_float_type(tof, tof)
+    return as_float_type(c * as_float_type(Ltotal, c) ** 2, tof) / t ** sc.scalar(
+        2, dtype=elem_dtype(t)
     )
 
 
